@@ -32,6 +32,7 @@ def handle (st : DState) (line : String) : DState × String :=
   | ["facts"] => (st, doFacts st.cur)
   | ["prog"] => (st, doProg st.cur)
   | "caps" :: fields => (st, doCaps st.cur fields)
+  | "capsR" :: fields => (st, doCaps st.cur fields)
   | "chartab" :: fields => (st, doChartab fields)
   | "iter" :: fields => (st, doIter st.cur fields)
   | "riter" :: fields => (st, doRiter st.cur fields)
